@@ -7,7 +7,7 @@ import subprocess
 import time
 from concurrent.futures import ThreadPoolExecutor
 
-from lib import common as C, core, gen, gen_threads, gen_options
+from lib import common as C, core, gen, gen_threads, gen_options, gen_pairs
 from checks import c20
 
 PROP = "C03"
@@ -168,9 +168,10 @@ def stress_line(src, mods, reps):
                           "".join(" %s=%s" % (m, t.encode("utf-8").hex()) for m, t in sorted(mods.items())))
 
 
-def run_isolated(exe, sources, per_input_timeout=40, raw=False):
+def run_isolated(exe, sources, per_input_timeout=40, raw=False, first_death_only=False):
     """Run sources through the child; restart after a death / hang. Returns list of outcome strings.
-    raw: the entries are input lines of c03obs already (see stress_line)."""
+    raw: the entries are input lines of c03obs already (see stress_line).
+    first_death_only: stop at the first input that kills / hangs the child (the later ones stay None)."""
     results = [None] * len(sources)
     i = 0
     while i < len(sources):
@@ -235,6 +236,8 @@ def run_isolated(exe, sources, per_input_timeout=40, raw=False):
                 results[current] += " FRAMES " + " < ".join(frames)
             died = True
         if not died and all(r is not None for r in results[base:]):
+            break
+        if died and first_death_only:
             break
         # continue after the culprit
         nxt = base
@@ -320,6 +323,17 @@ def run(res):
     for label, src in gen_threads.shared_container_scripts():
         extra[len(inputs)] = ({}, 3)
         inputs.append(("threads:shared-container:" + label, src))
+    # cross-type operations: every two-operand construct (operators, comparisons, membership, switch cases, equality of containers
+    # holding the values, hashing, comparison-driven builtins and methods) over ordered PAIRS of the value kinds the default
+    # globals produce; small values, nothing cyclic / deep / blocking.  One script per pair (each operation in its own try()),
+    # plus one tiny script per pair for each operation whose failure ends the evaluation.  Own random stream.
+    prng = C.Rng(res.seed ^ 0x7061697273)
+    pair_of = {}      # index in inputs -> (va, vb) of a pair script that holds all of gen_pairs.OPS
+    for plabel, va, vb in gen_pairs.gen_pairs(prng, 600 if tier == "quick" else 0, everything=(tier != "quick")):
+        pair_of[len(inputs)] = (va, vb)
+        inputs.append(("pairs:" + plabel, gen_pairs.script(va, vb)))
+        for op in gen_pairs.TAIL_OPS:
+            inputs.append(("pairs-one:" + plabel, gen_pairs.single(va, vb, op)))
     for label, s in CYCLIC:
         inputs.append(("cyclic:" + label, s))
     for label, s in CYCLIC_PRINT:
@@ -412,6 +426,49 @@ def run(res):
         outcomes[k] = "UNOBSERVED-slow" if not any(outcomes[j] == "HANG" for j in hung[:4]) else "HANG"
     cov["rerun_alone_after_watchdog"] = len(hung)
 
+    def is_bad(o):
+        return o is None or o.startswith("FATAL") or o == "HANG" or "GOPANIC" in o or o == "NO-RESULT"
+
+    # a pair script whose evaluation ended early with an error (an operation failed in a way try() does not catch: a recovered
+    # panic, an arity error) did not run its later operations: those scripts are run again, one operation per script
+    split = [k for k in sorted(pair_of) if not is_bad(outcomes[k]) and "eval:OK" not in outcomes[k]]
+    first_split = len(inputs)
+    for k in split:
+        va, vb = pair_of[k]
+        for op in gen_pairs.OPS:
+            inputs.append(("pairs-one:" + inputs[k][0].split(":", 1)[1], gen_pairs.single(va, vb, op)))
+    if len(inputs) > first_split:
+        new = list(range(first_split, len(inputs)))
+        outcomes += [None] * len(new)
+        with ThreadPoolExecutor(max_workers=nsh) as ex:
+            for idx, r in ex.map(work_shard, [new[s_::nsh] for s_ in range(nsh)]):
+                for k, o in zip(idx, r):
+                    outcomes[k] = o
+        for k in [k for k in new if outcomes[k] == "HANG"][:4]:
+            outcomes[k] = run_isolated(exe, [line_of(k)], per_input_timeout=400, raw=True)[0]
+    cov["pair_scripts"] = len(pair_of)
+    cov["pair_operations_per_script"] = len(gen_pairs.OPS) + len(gen_pairs.TAIL_OPS)
+    cov["pair_scripts_split_into_single_operations"] = len(split)
+    cov["pair_value_kinds"] = len(gen_pairs.primaries())
+
+    # a pair script that killed the child: find the operation, so that the replay is a script of one operation
+    minimised = {}
+
+    def minimise(k):
+        va, vb = pair_of[k]
+        singles = [gen_pairs.single(va, vb, op) for op in gen_pairs.OPS]
+        r = run_isolated(exe, singles, first_death_only=True)
+        for s_, o in zip(singles, r):
+            if o is not None and (o.startswith("FATAL") or o == "HANG"):
+                return k, (s_, o)
+        return k, None
+    dead = [k for k in sorted(pair_of) if outcomes[k] is not None and (outcomes[k].startswith("FATAL") or outcomes[k] == "HANG")][:10]
+    if dead:
+        with ThreadPoolExecutor(max_workers=min(len(dead), 5)) as ex:
+            for k, m in ex.map(minimise, dead):
+                if m:
+                    minimised[k] = m
+
     oracle = []
     hist = {}
     stage_hist = {}
@@ -456,8 +513,14 @@ def run(res):
                         + " (options are listed in the order given; deny lists and overrides are Go maps inside the Config, so every configuration is tried %d times)" % opt_reps}
             oracle.append(v)
             continue
-        v = {"kind": "oracle-violation", "input_kind": kind, "source": src if len(src) < 4000 or k_in in extra else src[:2000] + " ...[%d chars]" % len(src),
+        if k_in in minimised:
+            # the operation of the pair script that kills the child on its own
+            src, o = minimised[k_in]
+        v = {"kind": "oracle-violation", "input_kind": kind, "source": src if len(src) < 4000 or k_in in extra or k_in in pair_of else src[:2000] + " ...[%d chars]" % len(src),
              "outcome": o[:700]}
+        if kind.startswith("pairs"):
+            v["operands"] = kind.split(":", 1)[1]
+            v["reduced_to_one_operation"] = k_in in minimised or kind.startswith("pairs-one")
         if k_in in extra:
             v["modules"], v["evaluations_per_input"] = extra[k_in]
         oracle.append(v)
@@ -479,7 +542,12 @@ def run(res):
                    "Option route: %d configurations (every shape of deny / override name derived from the running packages' globals and from host-assembled "
                    "nested modules; host values of every kind; switches; OS / importer / VM; shuffled, repeated) through NewConfig and its accessors, Eval, "
                    "Compile + EvalCode and Call, each %d times. "
-                   "Non-trivial = distinct inputs." % (len(HOSTILE) + len(CYCLIC) + len(CYCLIC_PRINT), len(optcases), opt_reps))
+                   "Pair route: %d scripts, each applying %d two-operand constructs (operators, comparisons, in, switch cases, equality of lists / maps / sets "
+                   "holding the operands, hashing, sorted / index / count / remove / contains / set operations / map lookups, conversions, module functions) "
+                   "to an ordered pair of values of %d kinds (nil, bool, int, float incl. NaN / inf, byte, string, byte_slice, buffer, float_slice, list, map, set, "
+                   "error, time, function, builtin, module, iterator, iter entry, closed chan, thread, regexp, slice / index results, decoded values), each operation in "
+                   "its own try(); scripts that end early are re-run one operation per script; a script that kills the child is reduced to the operation that does. "
+                   "Non-trivial = distinct inputs." % (len(HOSTILE) + len(CYCLIC) + len(CYCLIC_PRINT), len(optcases), opt_reps, len(pair_of), len(gen_pairs.OPS) + len(gen_pairs.TAIL_OPS), len(gen_pairs.primaries())))
     cov["samples"] = [{"kind": inputs[k][0], "source": inputs[k][1][:200], "outcome": outcomes[k]} for k in (0, 5, len(HOSTILE) + 10, len(inputs) - 1)]
     cov["input_distribution"] = hist
     cov["outcome_distribution"] = dict(sorted(stage_hist.items(), key=lambda kv: -kv[1])[:20])
